@@ -28,7 +28,7 @@ type c19Case struct {
 func runC19(c *ev.Ctx) {
 	c.Rule = "for one picture: bytes of Encode(canonical *image.NRGBA at origin, tight stride) vs every placement {offset, negative origin, sub-image (2 sentinel fills), " +
 		"odd-offset sub-image, stride padding (2 fills), over-long Pix, opaque wrapper}, and concrete Go type T vs Wrapper{T}; caller buffer hashed before/after; " +
-		"distinct = (class, alpha, size mod 16 bucket, codec, method, exact, sharp, dithering, placement/type)"
+		"half of the cases carry ICC or EXIF+XMP (buffered writers instead of the streaming ones); distinct = (class, alpha, size mod 16 bucket, codec, method, exact, sharp, dithering, metadata, placement/type)"
 	n := c.N(1500, 250000)
 	var cases []ev.Case
 	for i := 0; i < n; i++ {
@@ -88,6 +88,14 @@ func c19One(c *ev.Ctx, cs ev.Case) {
 	base := img.Gen(r, cc.Class, cc.Alpha, cc.W, cc.H)
 	o := webp.DefaultOptions()
 	o.Lossless, o.Method, o.Quality, o.Exact, o.UseSharpYUV, o.Preprocessing = cc.Lossless, cc.Method, cc.Quality, cc.Exact, cc.Sharp, cc.Prep
+	// metadata switches Encode to its buffered writers (other pixel-import code than the streaming ones): half of the cases
+	meta := []string{"none", "none", "icc", "exif+xmp"}[cs.Idx%4]
+	switch meta {
+	case "icc":
+		o.ICC = []byte("icc-profile-odd")
+	case "exif+xmp":
+		o.EXIF, o.XMP = []byte("exif"), []byte("<x:xmpmeta/>")
+	}
 	baseSum := ev.Sum(base.Pix)
 	ref, err := encode(base, o)
 	if err != nil {
@@ -99,7 +107,7 @@ func c19One(c *ev.Ctx, cs ev.Case) {
 		return
 	}
 	key := func(what string) string {
-		return fmt.Sprintf("%s|%s|%d,%d|L=%v|M%d|E%v|S%v|P%d|%s", cc.Class, cc.Alpha, cc.W%16, cc.H%16, cc.Lossless, cc.Method, cc.Exact, cc.Sharp, cc.Prep, what)
+		return fmt.Sprintf("%s|%s|%d,%d|L=%v|M%d|E%v|S%v|P%d|%s|%s", cc.Class, cc.Alpha, cc.W%16, cc.H%16, cc.Lossless, cc.Method, cc.Exact, cc.Sharp, cc.Prep, meta, what)
 	}
 	try := func(what string, m image.Image, ref []byte) {
 		pix := backing(m)
